@@ -136,6 +136,9 @@ StopIsPromptO(o, cc) == Granted(o, cc) => o.after <= AfterBound
 OneExecutorO(o) == o.overlap = 0
 \* the state machine: a VM reported halted holds the script it halted in (InvStateTellsContent, observed)
 StateTellsContentO(o) == (o.state = "halted") => o.loaded
+\* an assembly step executes exactly one instruction from every reachable state - also on a script loaded after a run
+\* that a stop / abort ended (o.poststeps such steps executed o.postexec instructions and all returned ok)
+StepIsOneAfterO(o) == o.postexec = o.poststeps
 Core(o) == [e |-> o.e, c |-> o.c, state |-> o.state, loaded |-> o.loaded]
 AllObservedAllowed ==
     LET missing == { o \in Observed : Core(o) \notin TLCGet(1) }
@@ -143,12 +146,14 @@ AllObservedAllowed ==
         ineffective == { o \in Observed : ~StopTakesEffectO(o, cc) }
         late == { o \in Observed : ~StopIsPromptO(o, cc) }
         twoexec == { o \in Observed : ~OneExecutorO(o) }
-        badstate == { o \in Observed : ~StateTellsContentO(o) } IN
+        badstate == { o \in Observed : ~StateTellsContentO(o) }
+        badstep == { o \in Observed : ~StepIsOneAfterO(o) } IN
     /\ PrintT(<<"REACHED", Cardinality(TLCGet(1))>>)
     /\ \A o \in missing : PrintT(<<"NOTALLOWED", o>>)        \* mechanism drift (reported as a note)
     /\ \A o \in ineffective : PrintT(<<"NOTEFFECTIVE", o>>)  \* the property oracle
     /\ \A o \in late : PrintT(<<"KEEPSEXECUTING", o>>)       \* the property oracle
     /\ \A o \in twoexec : PrintT(<<"TWOEXECUTORS", o>>)       \* the property oracle
     /\ \A o \in badstate : PrintT(<<"HALTEDBUTEMPTY", o>>)     \* the property oracle
-    /\ ineffective = {} /\ late = {} /\ twoexec = {} /\ badstate = {}
+    /\ \A o \in badstep : PrintT(<<"STEPISNOTONE", o>>)        \* the property oracle
+    /\ ineffective = {} /\ late = {} /\ twoexec = {} /\ badstate = {} /\ badstep = {}
 =============================================================================
